@@ -23,7 +23,8 @@ EXPLANATION = (
     "R6d: in Hyrax, whose hiding is not optional, every draw lies on every non-refusing path of the body (or loop "
     "iteration) it belongs to - no row or polynomial is committed / opened without its blinding scalar. "
     "R6f: in Hyrax open every draw that flows into a per-polynomial proof is made inside the per-polynomial loop (one "
-    "mask per proof, not one per call). KZG10::commit refuses with MissingRng when hiding is requested without a generator. R12: the hiding polynomial "
+    "mask per proof, not one per call). R6g: in the IPA and Marlin committers nothing read from the `rand` field of the "
+    "commitment randomness flows into its `shifted_rand` (the shifted commitment has a blinding of its own). KZG10::commit refuses with MissingRng when hiding is requested without a generator. R12: the hiding polynomial "
     "has degree hiding_bound + k with k >= 1 in both definitions. Independence and sufficiency of the randomness and the "
     "group identity 'commitment = plain + blinding' are not decided.")
 RULE = ("instances = draw sites x provenance + committers x {rng reaches result, draws under hiding branch} + MissingRng "
@@ -235,6 +236,8 @@ def bypass_loop_of(b, blk):
 
 
 ALWAYS_HIDING = {"hyrax.commit", "hyrax.open"}
+SHIFTED_RAND = {"ipa.commit": "ipa_pc::data_structures::Randomness",
+                "marlin_kzg10.commit": "marlin::marlin_pc::data_structures::Randomness"}
 
 
 def run(rep, ctx, tier):
@@ -341,6 +344,38 @@ def run(rep, ctx, tier):
                         "every draw that blinds a per-polynomial proof is made inside the per-polynomial loop" if stale is None else
                         "the randomness drawn at %s blinds the proofs of all polynomials of one call: it is drawn once, outside "
                         "the loop that assembles them" % stale, stale or body.span)
+        if key in SHIFTED_RAND:
+            # R6g: the blinding of the shifted commitment is drawn on its own: nothing read from the `rand` field of the
+            # commitment randomness flows into what is stored as its `shifted_rand`
+            radt = SHIFTED_RAND[key]
+            src = ("FIELD", radt, "rand")
+            reached = {s_[0] for s_ in g.reach([src], kinds=(DATA,), typed=False)} if src in g.fwd else set()
+            reuse = None
+            stores = 0
+            for bid in sorted(g.scope):
+                bb = f.bodies[bid]
+                for blk in bb.blocks:
+                    for st in blk["stmts"]:
+                        rv = st["rv"]
+                        ops = []
+                        if any(isinstance(e, dict) and e.get("n") == "shifted_rand" and e.get("adt") == radt for e in st["dst"]["p"]):
+                            ops = [o for o in rv.get("ops", []) if o["k"] in ("copy", "move")]
+                        elif rv.get("k") == "agg" and rv.get("adt") == radt and "shifted_rand" in (rv.get("fields") or []):
+                            o = rv["ops"][rv["fields"].index("shifted_rand")]
+                            ops = [o] if o["k"] in ("copy", "move") else []
+                        for o in ops:
+                            stores += 1
+                            if (bid, o["pl"]["l"]) in reached:
+                                reuse = "%s:%s" % (bb.file(), st.get("line"))
+                    t = blk["term"]
+                    if t["k"] == "call" and any(isinstance(e, dict) and e.get("n") == "shifted_rand" and e.get("adt") == radt for e in t["dst"]["p"]):
+                        stores += 1
+                        if any(a["k"] in ("copy", "move") and (bid, a["pl"]["l"]) in reached for a in t["args"]):
+                            reuse = t["span"]
+            rep.add("R6g", "%s:shifted-rand-independent" % key, reuse is None,
+                    "nothing read from `rand` flows into what is stored as `shifted_rand` (%d store sites)" % stores if reuse is None else
+                    "the value stored as `shifted_rand` at %s is computed from the `rand` field: the two commitments of one "
+                    "polynomial share their blinding" % reuse, reuse or body.span)
         if rng_live is not None:
             e1 = []
             for (dbid, dblk, t) in draws:
